@@ -90,7 +90,7 @@ def run(idx, rep, tier):
                            detail="" if not missing else "missing:" + ",".join(missing), locs=[loc])
     rep.analysed["product_methods"] = n_methods
     # ---- clause 3: shape of *Ms composites depends on all parts
-    from props.C03 import depends_on_whole
+    from props.C03 import whole_through_helpers
     for ci in idx.operator_classes():
         init = ci.methods.get("__init__")
         if init is None or init.node.args.vararg is None:
@@ -107,7 +107,7 @@ def run(idx, rep, tier):
         expr = sh
         if isinstance(sh, ast.Name) and len(asg.get(sh.id, [])) == 1:
             expr = asg[sh.id][0][0]
-        whole = depends_on_whole(expr, va, asg)
+        whole = whole_through_helpers(idx, init, expr, va, asg)
         validated = any(isinstance(n, ast.For) and va in nospace(n.iter) and any(isinstance(x, (ast.Raise, ast.Assert)) for x in ast.walk(n)) and "shape" in nospace(n)
                         for n in df.body_nodes(init.node)) or any(isinstance(n, ast.Assert) and va in nospace(n) and "shape" in nospace(n) for n in df.body_nodes(init.node))
         ok = whole or validated
@@ -170,10 +170,12 @@ def run(idx, rep, tier):
         m = idx.cls(kind).methods.get("_matmat")
         fns = [m] + helper_closure(idx, m)
         src = "".join(nospace(f.node) for f in fns)
-        split_ok = "Mi.shape[-1]forMiinself.Ms" in src or "Mi.shape[1]forMiinself.Ms" in src
+        split_ok = any(splits_by_columns(f_) for f_ in fns)
         rep.decide(split_ok, "contraction", f"{kind}._matmat:split", "the operand is split along the factors' column sizes" if split_ok else "the operand is not split along the factors' column sizes (shape[-1])",
                    detail="" if split_ok else "split", locs=[idx.loc(m.module, m.node)])
-        out_ok = "reshape(self.shape[-2]," in src or "reshape(self.shape[0]," in src
+        out_ok = "reshape(self.shape[-2]," in src or "reshape(self.shape[0]," in src or any(
+            isinstance(c, ast.Call) and isinstance(c.func, ast.Attribute) and c.func.attr == "reshape" and c.args and nospace(df.resolve_value(m.node, c.args[0])) in ("self.shape[-2]", "self.shape[0]")
+            for c in df.calls(m.node))
         rep.decide(out_ok, "contraction", f"{kind}._matmat:result", "the result has the operator's row count" if out_ok else "the result is not reshaped to the operator's row count", detail="" if out_ok else "rows",
                    locs=[idx.loc(m.module, m.node)])
         moves = []
@@ -218,6 +220,22 @@ def run(idx, rep, tier):
                        "output, every axis move undone by its inverse).")
     rep.assumptions += ["the value of any product (Kronecker reshaping, BlockDiag slicing, Tridiagonal shifts), nesting depth and tolerances are not decided",
                         "opaque product methods: " + ", ".join(sorted(OPAQUE))]
+
+
+def splits_by_columns(f):
+    """`<operand>.reshape(*[<M>.shape[-1] for <M> in <factors>], -1)`: the operand is unfolded along the factors' COLUMN counts,
+    whatever the comprehension variable and the factor list are called"""
+    for c in df.calls(f.node):
+        if not (isinstance(c.func, ast.Attribute) and c.func.attr == "reshape" and c.args and isinstance(c.args[0], ast.Starred)):
+            continue
+        comp = c.args[0].value
+        if isinstance(comp, (ast.ListComp, ast.GeneratorExp, ast.Tuple)) and len(getattr(comp, "generators", [0])) == 1 and isinstance(comp, (ast.ListComp, ast.GeneratorExp)):
+            g = comp.generators[0]
+            e = comp.elt
+            if isinstance(g.target, ast.Name) and isinstance(e, ast.Subscript) and isinstance(e.value, ast.Attribute) and e.value.attr == "shape" and isinstance(e.value.value, ast.Name) \
+                    and e.value.value.id == g.target.id and nospace(e.slice) in ("-1", "1"):
+                return True
+    return False
 
 
 def helper_closure(idx, m):
